@@ -108,7 +108,7 @@ def basic_stats(case, py, replies):
 
 # ---------------------------------------------------------------- Count(transform): model Hg.Model.CountT vs implementation
 
-COUNTT_POLYS = [("w/2", [0, 0.5]), ("w*w", [0, 0, 1]), ("1", [1]), ("w+1", [1, 1])]
+COUNTT_POLYS = [("w/2", [0, 0.5]), ("w*w", [0, 0, 1]), ("1", [1]), ("w+1", [1, 1]), ("w-1", [-1, 1]), ("-w", [0, -1])]
 
 
 def countt_post(model, ws, chunks, sched, pick):
